@@ -264,6 +264,14 @@ func (r Ref) ToReg() Ref {
 		// convert any unsupported characters to "-" in the path
 		re := regexp.MustCompile(`[^/a-z0-9]+`)
 		r.Repository = string(re.ReplaceAll([]byte(r.Repository), []byte("-")))
+		// a repository path component cannot start or end with a separator
+		parts := []string{}
+		for _, part := range strings.Split(r.Repository, "/") {
+			if part = strings.Trim(part, "-"); part != "" {
+				parts = append(parts, part)
+			}
+		}
+		r.Repository = strings.Join(parts, "/")
 	}
 	return r
 }
